@@ -590,6 +590,17 @@ def replay_states(inputs):
             except ValueError:
                 if md >= 0.51:
                     bad.append(f'_compute_site_radius raised although the sites are {md} A apart')
+            # the same sites handed over in a reference cell 4 % larger than the simulation cell (the fractional coordinates are what counts; the
+            # distances that limit the radius are those in the simulation cell)
+            from pymatgen.core import Structure as _Structure
+            sites_ref = _Structure(Lattice(np.asarray(sites.lattice.matrix) * 1.04), [s_.specie for s_ in sites], sites.frac_coords, labels=list(sites.labels))
+            try:
+                r_ref = float(_compute_site_radius(trajectory=traj, sites=sites_ref, vibration_amplitude=0.6 * md))
+                if 2 * r_ref > md + 1e-9:
+                    bad.append(f'automatic radius {r_ref} for sites given in a 4 % larger reference cell overlaps: minimal site distance in the simulation cell {md}')
+            except ValueError:
+                if md >= 0.51:
+                    bad.append(f'_compute_site_radius raised for sites given in a larger reference cell although the sites are {md} A apart')
             f_eff = 1.0
         else:
             got = _calculate_atom_states(sites=sites, trajectory=diff, site_radius=radius, site_inner_fraction=f)
@@ -631,6 +642,10 @@ def bounded_states(tier, seed):
         if c % 4 == 1:
             inp['labelled'] = True
             inp['labels'] = ['A', 'B', 'A', 'A', 'C', 'A', 'D'][:7]
+            if c % 8 == 1:
+                # label names of which one is a prefix of another (Li, Li1, Li10, Li11), the shorter ones with the larger radii: a label selects the
+                # sites that carry exactly that label
+                inp['labels'] = [{'A': 'Li1', 'B': 'Li10', 'C': 'Li11', 'D': 'Li'}[x] for x in inp['labels']]
             inp['n_sites'] = 7
             inp['unvisited_first'] = True
             if c % 8 == 5:
